@@ -1282,8 +1282,11 @@ def simp(v):
                 pick = None
                 if tg[0] == "tuple" and len(tg[1]) == n_ and v[2] in tg[1] and tg[1].count(v[2]) == 1:
                     pick = tg[1].index(v[2])
-                elif tg[0] == "bv" and v[2][0] == "sub" and v[2][1] == tg and v[2][2][0] == "const" and type(v[2][2][1]) is int and -n_ <= v[2][2][1] < n_:
-                    pick = v[2][2][1] % n_
+                elif tg[0] == "bv" and v[2][0] == "sub" and v[2][1] == tg:
+                    i_ = v[2][2]
+                    i_ = i_[1] if i_[0] == "const" else -i_[2][1] if i_[:2] == ("unop", "USub") and i_[2][0] == "const" and type(i_[2][1]) is int else None
+                    if type(i_) is int and -n_ <= i_ < n_:
+                        pick = i_ % n_
                 if pick is not None and T[1][pick] == x:
                     seq = src if not ifs else ("comp", "list", x, ((x, src, ifs),))
                     return ("call", ("global", "sorted"), (seq,), (("key", ("lambda", (x,), T)),))
@@ -1446,8 +1449,10 @@ def expand_dict_loops(f):
         """[(key, value)] of `{..}.items()`, or of several such tables one after the other: `chain(a.items(), b.items())`"""
         if it[0] == "meth" and it[2] == "items" and not it[3]:
             return entries(it[1])
-        if it[0] == "call" and it[1] in (("global", "chain"), ("attr", ("global", "itertools"), "chain")) and it[2] and not it[3]:
-            parts = [items_of(a) for a in it[2]]
+        args = it[2] if it[0] == "call" and it[1] == ("global", "chain") and not it[3] else \
+            it[3] if it[0] == "meth" and it[1] == ("global", "itertools") and it[2] == "chain" and not it[4] else None
+        if args:
+            parts = [items_of(a) for a in args]
             return None if any(p_ is None for p_ in parts) else [e for p_ in parts for e in p_]
         return None
     rows = [{}]
@@ -1456,7 +1461,7 @@ def expand_dict_loops(f):
         ents = items_of(it)
         if not ents:
             continue
-        if it[0] == "meth":
+        if it[0] == "meth" and it[2] == "items":
             rows = [{**r, ("key", it[1], lp.id): k, ("val", it[1], lp.id): v} for r in rows for k, v in ents]
         else:
             # `for k, v in chain(..)`: the targets are the two components of the element
